@@ -156,6 +156,9 @@ def gen_cases(tier, seed):
         waits = rng.sample(range(2, 4 * nc), nc)
         if rng.random() < 0.3:
             waits = [w / 2 for w in waits]
+        if i % 3 == 2:
+            # several coroutines sleeping for the very same time
+            waits = [rng.choice([2, 3, 3, 5, 8]) for _ in range(nc)]
         yield {'mode': 'restart', 'waits': waits,
                'lead': [rng.choice([0.5, 1]) for _ in range(rng.randint(0, 2))],
                'restart': rng.sample(range(nc), rng.randint(1, 3)),
